@@ -248,7 +248,13 @@ func (a *cacheAdapter) SetEvictedCallback(fn func(k, v int)) {
 		a.c.SetEvictedCallback(nil)
 		return
 	}
-	a.c.SetEvictedCallback(func(k string, v interface{}) { fn(keyIndex(k), a.ub(v)) })
+	// the closure must not capture the adapter (adapter -> cache -> callback -> adapter is a cycle through an
+	// object with a finalizer: never collected)
+	ub := a.unbox
+	if ub == nil {
+		ub = unboxV
+	}
+	a.c.SetEvictedCallback(func(k string, v interface{}) { fn(keyIndex(k), ub(v)) })
 }
 func (a *cacheAdapter) HasEvictedCallback() bool { return a.c.EvictedCallback() != nil }
 func (a *cacheAdapter) Physical() map[int]PhysEntry {
@@ -366,7 +372,8 @@ func (a *cacheOfAdapter[K, V]) SetEvictedCallback(fn func(k, v int)) {
 		a.c.SetEvictedCallback(nil)
 		return
 	}
-	a.c.SetEvictedCallback(func(k K, v V) { fn(a.fromK(k), a.fromV(v)) })
+	fk, fv := a.fromK, a.fromV
+	a.c.SetEvictedCallback(func(k K, v V) { fn(fk(k), fv(v)) })
 }
 func (a *cacheOfAdapter[K, V]) HasEvictedCallback() bool { return a.c.EvictedCallback() != nil }
 func (a *cacheOfAdapter[K, V]) Physical() map[int]PhysEntry {
